@@ -1,4 +1,7 @@
-import DcmVerif.Props.SourceMeta
+import DcmVerif.Props.Source_classes
+import DcmVerif.Props.Source_simplify
+import DcmVerif.Props.Source_shapes
+import DcmVerif.Props.Source_wrapmerge
 import DcmVerif.Props.C03_wrap
 import DcmVerif.Proofs.Total
 /-! Property theorems for C03. Statements only; proofs are by reference to `Proofs/`. -/
